@@ -20,6 +20,7 @@ func scenPrints(out *scenOut, r *rng, thorough bool) {
 	for _, next := range []string{"enteralt", "resize", "print", "quit"} { // (not ClearScreen: it erases what is on the screen, printed lines included, on request)
 		printThenWhileFrameHeld(out, next)
 	}
+	printContent(out)
 }
 
 // printThenWhileFrameHeld: the ticker goroutine is inside the output writer with the frame that
@@ -113,5 +114,70 @@ func printThenWhileFrameHeld(out *scenOut, next string) {
 		} else if rowOf("SECOND-LINE") < rowOf("PRINTED-LINE") {
 			out.fail(finding{Property: "C14", Class: "new", What: "printed lines appear out of order", Input: desc})
 		}
+	}
+}
+
+// printContent: what Println / Printf (the commands and the Program methods) print is exactly
+// what fmt.Sprint / fmt.Sprintf of their arguments gives - also when the text contains '%',
+// several arguments, or newlines - once each, in order, above the view.
+func printContent(out *scenOut) {
+	ctl := newRecCtl()
+	buf := &safeBuffer{}
+	ctl.viewOf = func(version, ups int) string { return "the view\n" }
+	step := 0
+	rate := "rate 50%" + string(rune('d')) // (not a constant: keeps vet's printf check quiet; the text is the point)
+	cmds := []tea.Cmd{
+		tea.Println("download: 100%"),
+		tea.Printf("%d%% done", 50),
+		tea.Println(rate, 7, "x"),
+		tea.Printf("%s|%5.1f|%v", "a%b", 2.5, []int{1, 2}),
+		tea.Println("two", "words"),
+		tea.Println("first line\nsecond line"),
+	}
+	want := []string{"download: 100%", "50% done", fmt.Sprint(rate, 7, "x"), "a%b|  2.5|[1 2]", fmt.Sprint("two", "words"), "first line", "second line",
+		"method: 100%", "method 7%", fmt.Sprint("m", 1, 2)}
+	ctl.onUpdate = func(m tea.Msg, v int) tea.Cmd {
+		if u, ok := m.(userMsg); ok && u.Sender == 4 {
+			if step < len(cmds) {
+				c := cmds[step]
+				step++
+				return c
+			}
+		}
+		return nil
+	}
+	run := startProgram(ctl, buf, tea.WithInput(nil), tea.WithoutSignalHandler(), tea.WithFPS(120))
+	run.p.Send(tea.WindowSizeMsg{Width: 60, Height: 20})
+	for k := range cmds {
+		run.p.Send(userMsg{4, k})
+		time.Sleep(15 * time.Millisecond)
+	}
+	run.p.Println("method: 100%")
+	run.p.Printf("method %d%%", 7)
+	run.p.Println("m", 1, 2)
+	run.p.Send(userMsg{6, 6})
+	waitFor(2*time.Second, func() bool { return ctl.log.has("update-exit", "u6.6") })
+	time.Sleep(60 * time.Millisecond)
+	run.p.Quit()
+	desc := "Println / Printf commands and methods with '%' in the text, several arguments, a newline"
+	out.record("print-content", desc)
+	if !run.wait(4 * time.Second) {
+		run.p.Kill()
+		run.wait(3 * time.Second)
+		return
+	}
+	t := newVterm(60, 20)
+	t.write([]byte(buf.String()))
+	var got []string
+	for row := 0; row < t.main.top+t.h+4; row++ {
+		l := t.main.text(row)
+		if l == "" || l == "the view" {
+			continue
+		}
+		got = append(got, l)
+	}
+	if strings.Join(got, "\n") != strings.Join(want, "\n") {
+		out.fail(finding{Property: "C14", Class: "new", What: "the printed lines on the screen are not exactly what was printed, once each and in order", Input: desc,
+			Expected: strings.Join(want, " | "), Observed: strings.Join(got, " | ")})
 	}
 }
